@@ -78,6 +78,8 @@ def _ampm(ctx, rep, eng):
         if g is None:
             continue
         n_rules += 1
+        _, P_ = ctx.wrapped(text)
+        blank_lead = e2.group_may_take_leading_blank(P_, g)
         c = rule_construct(rule, "am/pm map")
         runs = _runs_of(eng, rule)
         bad = None
@@ -113,17 +115,25 @@ def _ampm(ctx, rep, eng):
                     else:
                         und = "unexpected free terms {}".format(other[:2])
                         continue
-                kinds = [None] if not present else ["a", "p"]
+                # the written marker: 'am' / 'pm', and -- when the pattern lets the group take the
+                # blank in front of it (e2.group_may_take_leading_blank) -- ' am' / ' pm'; what the
+                # code's own test sees is computed by applying its string operations to the word
+                words = [None] if not present else ["am", "pm"]
+                if present and blank_lead:
+                    words += [" am", " pm"]
                 for h in range(24):
                     for mi in ([None] if not min_leaves else [0, 5, 30, 59]):
-                        for k in kinds:
+                        for w in words:
+                            k = None if w is None else w.strip()[0]
                             val = {hour_leaves[0]: h}
                             for l in min_leaves:
                                 val[l] = mi
-                            for l in a_leaves:
-                                val[l] = (k == "a")
-                            for l in p_leaves:
-                                val[l] = (k == "p")
+                            try:
+                                for l in a_leaves + p_leaves:
+                                    val[l] = _apply_str_ops(l[1], w).startswith(l[2])
+                            except Undecided as e:
+                                und = str(e)
+                                continue
                             if ("ts",) in summ.leaves:
                                 val[("ts",)] = _dt.datetime(2020, 6, 15, 10, 30)
                             res = summ.evaluate(val)
@@ -139,14 +149,24 @@ def _ampm(ctx, rep, eng):
                             else:
                                 want_h = {h + 12} if 1 <= h < 12 else ({0, 12} if h == 0 else {h})
                             if f["hour"] not in want_h or (f["minute"] or 0) != want_m:
-                                bad = bad or "{}:{} {} gives {}:{} (expected hour {})".format(
-                                    h, want_m, {None: "", "a": "am", "p": "pm"}[k], f["hour"], f["minute"],
-                                    sorted(want_h))
+                                bad = bad or "{}:{} followed by {!r} gives {}:{} (expected hour {})".format(
+                                    h, want_m, w or "", f["hour"], f["minute"], sorted(want_h))
         if und and bad is None:
             rep.undecided("ampm-map", c, rule.where, und)
         else:
             rep.add("ampm-map", c, rule.where, bad is None, bad or "{} cases".format(n))
     rep.count("ampm_rules", n_rules, 2)
+
+
+def _apply_str_ops(sym, word):
+    """the text a chain of string methods (as recorded in a value's summary term) makes of the
+    group's text *word*"""
+    if isinstance(sym, tuple) and sym and sym[0] == "group":
+        return word
+    if isinstance(sym, tuple) and len(sym) == 2 and sym[0] in ("lower", "upper", "strip", "lstrip", "rstrip",
+                                                              "casefold", "title"):
+        return getattr(_apply_str_ops(sym[1], word), sym[0])()
+    raise Undecided("string operation outside the model before the am/pm test: {}".format(str(sym)[:60]))
 
 
 SPOKEN = [
@@ -215,7 +235,7 @@ def _minute_shape_ok(path, pname, mi):
 
 
 def _latent(ctx, rep, eng, sweep):
-    cm = ctx.mod("ctparse.ctparse")
+    cm = ctx.imod("ctparse.ctparse")
     gen = cm.func("ctparse_gen")
     # option off -> rewrite skipped
     calls = calls_in(gen, "apply_postprocessing_rules")
